@@ -1,5 +1,7 @@
 import Exetera.Props.C14
 import Exetera.Lemmas.GenKernelsCompareArrays
+import Exetera.Lemmas.GenKernelsUnique
+import Exetera.Lemmas.GenKernelsIsin
 /-!
   C14 over the TRANSLATED `compare_arrays` (`Gen/Kernels.lean`, regenerated from operations.py by tools/translate_njit.py on every
   run) — the first translated kernel with a `return` inside a loop (early-exit flag and result slot).
@@ -21,5 +23,65 @@ theorem gen_compare_arrays_is_lex (a b : Bytes) : compare_arrays.run (ints8 a) (
 
 example : compare_arrays.run [97, 98] [97, 98, 99] = .ok (-1) ∧ compare_arrays.run [97, 99] [97, 98, 99] = .ok 1 ∧
     compare_arrays.run [] [] = .ok 0 := ⟨rfl, rfl, rfl⟩
+
+/-! ### `get_indexed_string_unique` (KT4B) -/
+
+open Exetera.GenK.GU in
+/-- transfer: every `.ok` run of the model `getIndexedStringUnique` is a run of the TRANSLATED `get_indexed_string_unique` — called
+    as `unique_for_indexed_string` calls it, with an empty `unique_result` and empty / absent (`None`) companion lists — that
+    leaves the same four lists (bytes as ints, positions as ints) -/
+theorem gen_unique_ok (indices : List Nat) (values : Bytes) (ri rv rc : Bool) (o : UOut)
+    (h : getIndexedStringUnique indices values ri rv rc = .ok o) :
+    get_indexed_string_unique.run (natsI indices) (ints8 values) [] (optNil ri) (optNil rv) (optNil rc)
+      = .ok (o.result.map ints8, o.index.map natsI, o.inverse.map natsI, o.counts.map natsI) :=
+  get_indexed_string_unique_ok indices values ri rv rc o h
+
+open Exetera.GenK.GU in
+/-- the property-level statement (`C14.unique_kernel_discovery_order`) for the translated kernel itself: on the stored form of ANY
+    column and every combination of the three flags it returns normally (no subscript out of range or negative) the distinct
+    values in discovery order, their first rows, the row → discovery position map and the counts -/
+theorem gen_unique_discovery_order (col : List Bytes) (ri rv rc : Bool) :
+    get_indexed_string_unique.run (natsI (encode col).1) (ints8 (encode col).2) [] (optNil ri) (optNil rv) (optNil rc)
+      = .ok ((discOut ri rv rc col).result.map ints8, (discOut ri rv rc col).index.map natsI,
+          (discOut ri rv rc col).inverse.map natsI, (discOut ri rv rc col).counts.map natsI) :=
+  get_indexed_string_unique_ok _ _ ri rv rc _ (C14.unique_kernel_discovery_order col ri rv rc)
+
+example : get_indexed_string_unique.run [0, 1, 2, 3, 4] [98, 99, 97, 98] [] (some []) (some []) (some [])
+    = .ok ([[98], [99], [97]], some [0, 1, 2], some [0, 1, 2, 0], some [2, 1, 1]) := by rfl
+example : get_indexed_string_unique.run [0, 1, 2, 3, 4] [98, 99, 97, 98] [] none (some []) none
+    = .ok ([[98], [99], [97]], none, some [0, 1, 2, 0], none) := by rfl
+example : GU.natsI (encode [[98], [99], [97], [98]]).1 = [0, 1, 2, 3, 4] ∧ ints8 (encode [[98], [99], [97], [98]]).2 = [98, 99, 97, 98] := by
+  decide
+
+/-! ### `isin_indexed_string_speedup` (KT4B) -/
+
+open Exetera.GenK.GU in
+/-- transfer: every `.ok` run of the model `isinSpeedup` (row loop around the binary search) is a run of the TRANSLATED
+    `isin_indexed_string_speedup` — which calls the translated `compare_arrays` — with the same flags, for any fuel ≥ len(tests) -/
+theorem gen_isin_ok (tests : List Bytes) (indices : List Nat) (values : Bytes) (r : List Bool) (fuel : Nat)
+    (hfuel : tests.length ≤ fuel) (h : isinSpeedup tests indices values = .ok r) :
+    isin_indexed_string_speedup.run (tests.map ints8) (natsI indices) (ints8 values) fuel = .ok r :=
+  isin_indexed_string_speedup_ok tests indices values r fuel hfuel h
+
+open Exetera.GenK.GU in
+/-- the property-level statement for the translated kernel itself: on a SORTED test list (what `isin_for_indexed_string_field`
+    passes: `sorted(test_elements)`) and the stored form of ANY column it returns normally (no subscript out of range or
+    negative, the binary search within `len(tests)` iterations) the flag "the row's value is a member of the test list" per row -/
+theorem gen_isin_eq_mem (tests col : List Bytes) (hs : SortedLe tests) (fuel : Nat) (hfuel : tests.length ≤ fuel) :
+    isin_indexed_string_speedup.run (tests.map ints8) (natsI (encode col).1) (ints8 (encode col).2) fuel
+      = .ok (Spec.isin col tests) :=
+  isin_indexed_string_speedup_ok tests _ _ _ fuel hfuel (isinSpeedup_encode tests col hs)
+
+/-- … in particular on the list the public function builds, in any order and with duplicates -/
+theorem gen_isin_sorted_eq_mem (ts col : List Bytes) (fuel : Nat) (hfuel : ts.length ≤ fuel) :
+    isin_indexed_string_speedup.run ((sortedStr ts).map ints8) (GU.natsI (encode col).1) (ints8 (encode col).2) fuel
+      = .ok (Spec.isin col (sortedStr ts)) :=
+  gen_isin_eq_mem (sortedStr ts) col (sortedStr_sorted ts) fuel (by simpa [sortedStr] using hfuel)
+
+example : isin_indexed_string_speedup.run [[], [97], [195, 169]] [0, 1, 1, 3, 5] [98, 195, 169, 97, 98] 3
+    = .ok [false, true, true, false] := by rfl
+example : SortedLe [[], [97], [195, 169]] := by simp [SortedLe, Spec.bytesLe, Spec.lexCmp]
+/-- an unsorted test list: the binary search misses `[97]` in `[[98], [97]]` (the precondition matters; the kernel still stays inside its arrays) -/
+example : isin_indexed_string_speedup.run [[98], [97]] [0, 1] [97] 2 = .ok [false] := by rfl
 
 end Exetera.Props.C14Gen
